@@ -598,7 +598,8 @@ WriteClauses(e, G) ==
                   THEN {"C09:atom-attributes-or-order"} ELSE {})
           \* e.six[literal] = the literal rounded to six decimals (exact decimal arithmetic, done by the harness); a writer may
           \* print more decimals than six, never a value that differs in the first six
-          \cup (IF Len(D.atoms) = n /\ \E i \in 1..n : \E k \in 1..3 :
+          \* (with calc_coordinates the writer lays the atoms out itself: the stored coordinates are not what it prints)
+          \cup (IF ~(Has(e, "calc") /\ e.calc) /\ Len(D.atoms) = n /\ \E i \in 1..n : \E k \in 1..3 :
                        LET lit == <<D.atoms[i].x, D.atoms[i].y, D.atoms[i].z>>[k] IN
                        lit \notin DOMAIN e.six \/ e.six[lit] # e.xyz6[i][k]
                   THEN {"C09:coordinates-not-to-six-decimals"} ELSE {})
